@@ -29,7 +29,7 @@ man = {
     "hooks": {
         "guard": "none (no source hooks: a shadow header found first on the include path intercepts CRAB_ERROR and CRAB_VERBOSE_IF in harness builds only)",
         "enable": "-I /verif/shadow -include crab/support/debug.hpp (harness builds compile /repo/lib/*.cpp and /repo/include with these flags; /repo itself is unchanged)",
-        "baseline_off_cmd": "cmake --build /repo/_build && ctest --test-dir /repo/_build -j8 --timeout 900",
+        "baseline_off_cmd": "cmake --build /repo/_build -- -k 0 ; ctest --test-dir /repo/_build -j8 --timeout 900   # the target wrapint (tests/domains/wrapint/wrapint.cc lacks #include <bitset>) does not compile on the pinned tree either and is not part of the 120 baseline tests",
         "source_commits": [],
         "add_only": True,
     },
